@@ -89,7 +89,84 @@ class UpdaterModel:
                     nm = self.updater_field(f)
                     if nm and n not in self.field_of:
                         self.field_of[n] = nm
+        # encoding of the status state machine: 'dyn' (boxed typestate objects stepped through a trait object; the step is
+        # an opaque call) or 'enum' (a plain enum stepped by a statically resolved function that PSI inlines, so that the
+        # state shows up as discriminant conditions / constant variants on the dispatch paths)
+        self.step_fns = set()
+        recvs = []
+        for i in self.infos:
+            self.step_fns |= i['step_callees']
+            recvs += i['step_recv']
+        self.state_field = None
+        for r in recvs:
+            nm = self.place_field(r)
+            if nm:
+                self.state_field = nm
+        self.enum_mode = False
+        self.state_enum = None
+        bodies = [fb.body(c) for c in self.step_fns]
+        if bodies and all(b is not None for b in bodies) and self.state_field:
+            rt = bodies[0].tystr(bodies[0].locals[0]['ty'])
+            adt = self.engine.find_adt(rt)
+            if adt and adt['kind'] == 'enum':
+                self.enum_mode = True
+                self.state_enum = (rt, {v.get('discr', v['index']): v['name'] for v in adt['variants']})
+        self._tables = None
         self.ok = True
+
+    def place_field(self, v):
+        """dotted updater-field name of a step receiver passed by value (`self.state`) or by reference (`&self.state`)"""
+        if v[0] == 'ref':
+            base, proj = v[1]
+            if base[0] == 'S' and base[1][0] == 'sym' and proj and all(e[0] == 'f' for e in proj):
+                return '.'.join(str(e[2] if e[2] is not None else e[1]) for e in proj)
+            return None
+        return self.updater_field(v)
+
+    def state_leaf(self, upd):
+        """the term of the updater's state field read at the start of a dispatch iteration"""
+        v = upd
+        for nm in (self.state_field or '').split('.'):
+            v = T('field', v, nm)
+        return v
+
+    def published(self, chk, i, ceb):
+        """(kind, status, from_step) of the status a path publishes: kind 'fsm' = the value of the state machine after this
+        path's step (or of the held state when the path makes no step), 'const' = a fixed status, 'other'"""
+        v = ceb[3][5]
+        if not self.enum_mode:
+            if v[0] == 'agg' and v[2] is not None:
+                return ('const', v[2], False)
+            if v[0] == 't' and v[1] == 'call' and v[2][0].endswith('::value'):
+                from_step = any(s_ is not None and any(x == s_ for x in psi.walk(v)) for s_ in i['steps']) or \
+                    any(s_ is None for s_ in i['steps'])
+                return ('fsm', fmt(v), from_step)
+            return ('other', fmt(v)[:120], False)
+        trans, values, _, _ = self.fsm_tables(chk)
+        if not (v[0] == 'agg' and v[2] is not None):
+            return ('other', fmt(v)[:120], False)
+        new = i['stores'].get(self.state_field)
+        if new is not None and new[0] == 'agg' and values.get(new[2]) == v[2] and i['applied']:
+            return ('fsm', v[2], True)
+        if new is None and not i['applied']:
+            held = self.path_state(i)
+            if held is not None and values.get(held) == v[2]:
+                return ('fsm', v[2], False)
+        return ('const', v[2], False)
+
+    def path_state(self, i):
+        """enum mode: the variant of the state field this path was taken for (from its discriminant conditions), or None"""
+        if not self.enum_mode:
+            return None
+        names = self.state_enum[1]
+        compat = set(names)
+        for term, op, val, _ in i['path'].conds:
+            if term[0] == 't' and term[1] == 'discr' and self.place_field(term[2][0]) == self.state_field:
+                if op == '==':
+                    compat &= {val}
+                else:
+                    compat -= set(val)
+        return names[compat.pop()] if len(compat) == 1 else None
 
     @staticmethod
     def updater_field(v):
@@ -107,7 +184,7 @@ class UpdaterModel:
 
     def classify(self, p):
         info = {'path': p, 'msg': None, 'msg_name': None, 'recv_err': False, 'applied': [], 'records': [],
-                'published': [], 'stores': {}, 'writes': 0, 'payload': None, 'steps': [], 'step_callees': set()}
+                'published': [], 'stores': {}, 'writes': 0, 'payload': None, 'steps': [], 'step_callees': set(), 'step_recv': []}
         recv_term = None
         for n, ef in enumerate(p.effects):
             if ef['kind'] == 'inline':
@@ -116,6 +193,7 @@ class UpdaterModel:
                     if ef['site'][0] not in info['step_callees']:
                         info['applied'].append(a[2])
                         info['steps'].append(None)
+                        info['step_recv'].append(ef['args'][0])
                     info['step_callees'].add(ef['callee'])
                 continue
             if ef['kind'] != 'call' or ef['tracing']:
@@ -171,6 +249,11 @@ class UpdaterModel:
         """(trans, values, passthrough, delegates): trans = {state type: {input status: next state type}},
         values = {state type: status its value() reports}; states are identified by their type string"""
         fb = self.fb
+        if self._tables is not None:
+            return self._tables
+        if self.enum_mode:
+            self._tables = self.enum_tables(chk)
+            return self._tables
         trans = {}
         values = {}
         for b in fb.bodies(common.DAEMON):
@@ -229,7 +312,68 @@ class UpdaterModel:
                     args = p.value[2][2:]
                     if len(args) == 2 and fmt(args[1]) == 'update':
                         delegates = True
-        return trans, values, passthrough, delegates
+        self._tables = (trans, values, passthrough, delegates)
+        return self._tables
+
+    def enum_tables(self, chk):
+        """tables of an enum-encoded state machine, read off the resolved step function (state x input -> state) and the
+        function mapping a state to the ClockStatus it reports"""
+        fb = self.fb
+        rt, names = self.state_enum
+        inputs = variant_names(fb, 'ChronyClockStatus')
+        trans = {n: {} for n in names.values()}
+        values = {}
+        # outermost step function: the one called from the dispatch paths' own frames
+        steps = [fb.body(c) for c in self.step_fns]
+        callees_of = {b.path: {mir.callee_name(fn) for _, _, fn in common.user_calls(b) if fn} for b in steps}
+        outer = [b for b in steps if not any(b.path in cs for p_, cs in callees_of.items() if p_ != b.path)] or steps
+        b = outer[0]
+        chk.saw(b)
+        eng = common.mk_engine(fb)
+
+        def arg_discr(term, argi):
+            x = term[2][0] if term[0] == 't' and term[1] == 'discr' else None
+            if x is None:
+                return False
+            nm = b.debug_names.get(argi, 'arg%d' % argi)
+            return x == ('sym', nm) or x == T('deref', ('sym', nm))
+        for p in eng.run(b):
+            chk.analysed['paths'] += 1
+            if p.kind != 'return':
+                continue
+            ss, cs = set(names), set(inputs)
+            for term, op, val, _ in p.conds:
+                for argi, cur in ((1, ss), (2, cs)):
+                    if arg_discr(term, argi):
+                        if op == '==':
+                            cur &= {val}
+                        else:
+                            cur -= set(val)
+            tgt = p.value[2] if p.value[0] == 'agg' and p.value[1] == rt else None
+            for s_ in ss:
+                for c_ in cs:
+                    trans[names[s_]][inputs[c_]] = tgt
+        for vb in fb.bodies(common.DAEMON):
+            if vb.argc != 1 or vb.defkind == 'Closure':
+                continue
+            at = vb.tystr(vb.locals[1]['ty']).lstrip('&').replace('mut ', '').strip()
+            if at != rt or not vb.tystr(vb.locals[0]['ty']).endswith('ClockStatus'):
+                continue
+            chk.saw(vb)
+            nm = vb.debug_names.get(1, 'arg1')
+            for p in common.mk_engine(fb).run(vb):
+                if p.kind != 'return' or p.value[0] != 'agg':
+                    continue
+                ss = set(names)
+                for term, op, val, _ in p.conds:
+                    if term[0] == 't' and term[1] == 'discr' and term[2][0] in (('sym', nm), T('deref', ('sym', nm))):
+                        if op == '==':
+                            ss &= {val}
+                        else:
+                            ss -= set(val)
+                for s_ in ss:
+                    values[names[s_]] = p.value[2]
+        return trans, values, True, True
 
     def initial_state(self, chk):
         """constructor state of the updater: {field: value}, FSM initial state name"""
@@ -267,6 +411,10 @@ class UpdaterModel:
                                         for f in p.value[3]:
                                             if f[0] == 'agg' and f[1].endswith('ClockStatus'):
                                                 init = (p.value[1], f[2])
+        if init is None and self.enum_mode and self.state_field in fields:
+            v0 = fields[self.state_field]
+            if v0[0] == 'agg' and v0[2] is not None:
+                init = (v0[2], None)
         return ctor, fields, init
 
 
